@@ -32,6 +32,7 @@
  *                                          path 0 = vorbis_encode_init, 1 = setup_managed + setup_init, 2+k = setup_managed + request SCTL[k] + setup_init.
  *                                          The pipeline pl runs on every <stride>-th successful set-up of the line (the others are set up and cleared).
  *                                          (S 1 accepts the same path numbers: one explicit tuple.)
+ *   W <managed> <ch> <rate> <q|nominal> <total> <piece> <batch>   submission-size axis of the encode stage (see main)
  *   T                                      print the tables (rates, qualities, ops, bases) as one line of JSON-ish text
  * output: <idx> ok n=<set-ups> cls=<class>*<count>,...  succ=<ch>/<template>*<count>,.. st=<hash>:<ops>,.. leak=<desc>*<bytes>,.. bad=<kind>@<desc>;..
  * A non-empty bad= is a property violation on that tuple.  */
@@ -291,6 +292,7 @@ static float sigsample(int sig,long k,int c,long rate,long ns){
 }
 /* after a successful set-up: analysis_init, headerout, (encode ns samples), headerin of the three headers; clears its own objects.
  * returns 0 and leaves bad[0]==0 when everything completed as documented */
+static long g_piece=1024; static int g_batch=0;   /* submission axis (case W): samples per vorbis_analysis_buffer/_wrote call; batch = no blockout before the final wrote(0) */
 static void pipeline(vorbis_info *vi,long ch,long rate,int level,long ns,char *bad,size_t badn,encstat *es){
   int sig=-1;
   vorbis_dsp_state vd; vorbis_block vb; vorbis_comment vc,vc2; vorbis_info vi2; ogg_packet h[3],op; int r,i,have_vb=0;
@@ -330,13 +332,14 @@ static void pipeline(vorbis_info *vi,long ch,long rate,int level,long ns,char *b
     g_lcg=0x1234567u+ch*131+rate;
     while(!eos&&!bad[0]){
       long chunk=ns-pos; float **buf; long k; int c;
-      if(chunk>1024)chunk=1024;
+      if(chunk>g_piece)chunk=g_piece;
       if(chunk>0){
         buf=vorbis_analysis_buffer(&vd,chunk);
         for(k=0;k<chunk;k++)for(c=0;c<vi->channels;c++)buf[c][k]=sig<0?noise():sigsample(sig,pos+k,c,rate,ns);
         r=vorbis_analysis_wrote(&vd,chunk); pos+=chunk;
       }else{ r=vorbis_analysis_wrote(&vd,0); eos=1; }
       if(r){ snprintf(bad,badn,"analysis_wrote_rc%d",r); break; }
+      if(g_batch&&!eos)continue;
       while((r=vorbis_analysis_blockout(&vd,&vb))==1){
         es->blocks++; if(vb.W)es->longb++; else es->shortb++;
         r=vorbis_analysis(&vb,NULL); if(r){ snprintf(bad,badn,"analysis_rc%d",r); break; }
@@ -381,6 +384,7 @@ static void one_setup(acc *A,int managed,int path,long ch,long rate,float q,long
   else snprintf(desc,sizeof(desc),"vbr:p%d:ch=%ld:rate=%ld:q=%s",path,ch,rate,qname(q,qb));
   if(path>=2){ size_t dl=strlen(desc); if(!managed||path-2>=NSCTL){ acc_bad(A,"BADCASE_path",desc); return; } snprintf(desc+dl,sizeof(desc)-dl,":req=%s",SCTLNAMES[path-2]); }
   if(pl>=10){ size_t dl=strlen(desc); snprintf(desc+dl,sizeof(desc)-dl,":pl=%d:sig=%s",pl,pl-10<NSIG?SIGNAMES[pl-10]:"?"); }
+  if(g_piece!=1024||g_batch){ size_t dl=strlen(desc); snprintf(desc+dl,sizeof(desc)-dl,":ns=%ld:piece=%ld:batch=%d",ns,g_piece,g_batch); }
   fn1=managed?"setup_managed":"setup_vbr"; fn=managed?"init":"init_vbr";
   g_ord=A->n; snprintf(g_desc,sizeof(g_desc),"%s",desc);
   A->n++;
@@ -646,7 +650,7 @@ int main(int argc,char **argv){
     while((tok=strtok_r(NULL," \n",&sv))&&nv<40){ ts[nv]=tok; v[nv++]=atol(tok); }
     memset(&it,0,sizeof(it)); it.it_value.tv_sec=timeout; setitimer(ITIMER_PROF,&it,NULL);
     g_nskip=0; g_ord=-1; g_desc[0]=0;
-    { int fixed=(mode=='C'&&nv>=6)?6+(int)v[5]:(mode=='S'?(nv>0&&v[0]?9:7):(mode=='L'?8:6)); int k; g_stride=1; g_succ_in_line=0; for(k=fixed;k<nv&&g_nskip<16;k++)g_skip[g_nskip++]=v[k]; }
+    { int fixed=(mode=='C'&&nv>=6)?6+(int)v[5]:(mode=='S'?(nv>0&&v[0]?9:7):(mode=='L'?8:(mode=='W'?7:6))); int k; g_stride=1; g_succ_in_line=0; for(k=fixed;k<nv&&g_nskip<16;k++)g_skip[g_nskip++]=v[k]; }
     if(mode=='G'&&nv>=6){
       int path=v[0],ri,qi; long ch=v[1];
       for(ri=0;ri<NRATES;ri++){ if(v[2]>=0&&v[2]!=ri)continue;
@@ -661,6 +665,12 @@ int main(int argc,char **argv){
       /* explicit tuple: S 0 <path> <ch> <rate> <qi> <pl> <ns>   |   S 1 <path> <ch> <rate> <max> <nominal> <min> <pl> <ns> */
       if(v[0]==0){ if(v[4]<0||v[4]>=NQUALS){ printf("%ld BADCASE\n",idx); fflush(stdout); continue; } one_setup(&A,0,v[1],v[2],v[3],QUALS[v[4]],0,0,0,v[5],v[6]); }
       else one_setup(&A,1,v[1],v[2],v[3],0,v[4],v[5],v[6],v[7],v[8]);
+    }else if(mode=='W'&&nv>=7){
+      /* submission-size axis: W <managed> <ch> <rate> <quality text|nominal> <total samples> <piece> <batch>: one-step set-up, then the encode stage with the
+         signal submitted in pieces of <piece> samples; batch 1 = everything is submitted (and the stream closed) before the first vorbis_analysis_blockout */
+      g_piece=v[5]>0?v[5]:1024; g_batch=v[6]!=0;
+      one_setup(&A,v[0]!=0,0,v[1],v[2],v[0]?0.f:strtof(ts[3],NULL),-1,v[0]?v[3]:0,-1,2,v[4]);
+      g_piece=1024; g_batch=0;
     }else if(mode=='B'&&nv>=6){
       /* bitrate scaling family: v = p*ch (and the absolute values) through every role; roles 8/9: an absolute max / min beside a scaled nominal */
       int path=v[0],pi,ai,role; long ch=v[1],rate=v[2],mx,nom,mn;
